@@ -467,7 +467,9 @@ class C19(Prop):
             "submodules (relative and absolute, aliased, star), from siblings/parents, from foreign modules; conditional "
             "definitions) x programs star-importing them (one or two star imports, shadowing imports before/after, reads of the "
             "star-bound names), plus uninspectable targets (missing, syntax error, namespace package, builtin, extension, "
-            "undecodable, non-string __all__); non-trivial = the target exports at least one name or its star import must be kept")
+            "undecodable, non-string __all__), facade modules that export nothing although `import *` binds names, and files on disk "
+            "star-importing a sibling module while another sys.path/PYTHONPATH directory holds a module of the same name "
+            "(file's directory absent / first / after it; library call and replace-star-imports tool; sibling pre-imported); non-trivial = the target exports at least one name or its star import must be kept")
     trusted_base = ["CPython 3.12 import system and `from M import *` / `from M import x` semantics (reference, run in a fresh interpreter)",
                     "stdlib ast (the harness's item abstraction fed to the model and the oracle's own reading of the module)"]
     assumptions = []
@@ -533,7 +535,18 @@ class C19(Prop):
         r = rng.random()
         if r < 0.12:
             return self._gen_uninspectable(rng, tag)
+        if r < 0.19:
+            return gen_c19.gen_env_case(rng, tag)
         kind = rng.choice(gen_c19.TARGET_KINDS + ["init", "init", "plain"])
+        if r < 0.27:
+            # facade / compat module: `import *` binds names, yet nothing is exported => the star import must stay
+            u, g, files = gen_c19.gen_facade_universe(rng, tag, kind)
+            t = u.target_name(kind)
+            program, reads = gen_c19.gen_program(rng, u, t, g.star_names(), [], None)
+            if not reads and g.star_names():
+                reads = [rng.choice(g.star_names())]
+                program = "from %s import *\n\n_r = (%s,)\n" % (t, reads[0])
+            return dict(files=files, targets=[t], program=program, reads=reads, kind="facade:" + kind, cli=False)
         u, g, files = gen_c19.gen_universe(rng, tag, kind, max_items=rng.choice([3, 5, 8]))
         t = u.target_name(kind)
         extra = []
@@ -596,6 +609,8 @@ class C19(Prop):
 
     # -- implementation ----------------------------------------------------------------------
     def run_impl(self, case):
+        if case.get("kind") == "env":
+            return self._run_env(case)
         from pyflyby._modules import ModuleHandle
         from pyflyby._imports2s import replace_star_imports
         tops = _universe_tops(case)
@@ -620,7 +635,11 @@ class C19(Prop):
                                     names.append("?%s:%s:%s" % (s.module_name, s.member_name, s.import_as))
                                 else:
                                     names.append(s.member_name)
-                            obs["exports"][t] = sorted(set(names))
+                            # an empty ImportSet and None both mean "nothing exported": what matters (and what the
+                            # oracle checks) is that the star import is then kept
+                            obs["exports"][t] = sorted(set(names)) or None
+                            if not names:
+                                obs["exports_empty_not_none"] = True
                     except Exception as ex:
                         obs["exports"][t] = {"err": type(ex).__name__, "msg": str(ex)[:160]}
                 _purge(tops)
@@ -659,6 +678,145 @@ class C19(Prop):
             shutil.rmtree(root, ignore_errors=True)
         return obs
 
+    # -- environment cases: a file on disk star-imports a SIBLING module; another directory holds a module of the
+    #    same name.  Clean tree (read ImportPathForRelativeImportsCtx / ImportPathCtx / ModuleHandle.filename):
+    #    the file's directory is prepended to sys.path for the duration of `module.exports`, whether or not it is
+    #    already on sys.path, so find_spec() sees the sibling first: absent / first / after another directory all
+    #    resolve to the sibling, in the library call and in the `replace-star-imports` tool (PYTHONPATH).
+    #    Pre-imported sibling (sys.modules holds the sibling itself): same answer.
+    #    NOT generated (clean tree answers from the wrong module; reported as candidate defects, see notes):
+    #    sys.modules already holding the other directory's module; `from __future__ import absolute_import` in the file.
+    ENV_DRIVER = r'''
+import sys, json, os
+cfg = json.loads(sys.argv[1])
+sys.path[0:0] = cfg["path"]
+sys.path.insert(0, cfg["repo_lib"])
+os.environ.setdefault("PYFLYBY_PATH", "EMPTY"); os.environ.setdefault("PYFLYBY_LOG_LEVEL", "ERROR")
+if cfg["preimport"]:
+    import importlib
+    m = importlib.import_module(cfg["modname"])
+    assert os.path.realpath(os.path.dirname(m.__file__)).startswith(os.path.realpath(cfg["proj"])), m.__file__
+from pyflyby._imports2s import replace_star_imports
+from pyflyby._parse import PythonBlock
+from pyflyby._file import Filename
+out = replace_star_imports(PythonBlock(Filename(cfg["tool"])))
+sys.stdout.write(out.text.joined)
+'''
+
+    def _run_env(self, case):
+        e = case["env"]
+        base = os.path.realpath(tempfile.mkdtemp(
+            prefix="c19_", dir=self._scratch if self._scratch and os.path.isdir(self._scratch) else None))
+        obs = {}
+        try:
+            lib, proj = os.path.join(base, "lib"), os.path.join(base, "proj")
+            for d, files in ((lib, case["libfiles"]), (proj, case["projfiles"])):
+                os.makedirs(d)
+                for rel, src in files.items():
+                    p = os.path.join(d, rel)
+                    os.makedirs(os.path.dirname(p), exist_ok=True)
+                    with open(p, "w", encoding="utf-8") as f:
+                        f.write(src)
+            tool = os.path.join(proj, "tool.py")
+            with open(tool, "w", encoding="utf-8") as f:
+                f.write(case["program"])
+            path = {"absent_nolib": [], "absent": [lib], "first": [proj, lib], "after": [lib, proj]}[e["path_mode"]]
+            repo_lib = os.path.join(REPO, "lib", "python")
+            env = {k: v for k, v in os.environ.items() if k not in ("PYTHONPATH", "PYTHONSTARTUP", "PYTHONHOME")}
+            env.update(PYFLYBY_PATH="EMPTY", PYFLYBY_LOG_LEVEL="ERROR", PYTHONDONTWRITEBYTECODE="1")
+
+            def script(fn, extra_env):
+                p = subprocess.run([sys.executable, "-S", fn], env=dict(env, **extra_env), cwd=base,
+                                   stdout=subprocess.PIPE, stderr=subprocess.PIPE, text=True, timeout=60)
+                return p.returncode, p.stdout, p.stderr[-300:]
+            runenv = {"PYTHONPATH": os.pathsep.join(path)} if path else {}
+            # what the program does, run as a script (its directory is sys.path[0]: the sibling wins)
+            obs["orig"] = script(tool, runenv)
+            probe = os.path.join(proj, "probe_c19.py")
+            with open(probe, "w") as f:
+                f.write("from %s import *\nimport json\nprint(json.dumps(sorted(n for n in dir() if n != 'json' "
+                        "and not n.startswith('__'))))\n" % case["modname"])
+            rc, out, err = script(probe, runenv)
+            obs["star"] = json.loads(out) if rc == 0 else None
+            os.unlink(probe)
+            # the rewrite, in that environment
+            if e["via"] == "cli":
+                cenv = dict(env, PYTHONPATH=os.pathsep.join([repo_lib] + path))
+                p = subprocess.run([sys.executable, os.path.join(REPO, "bin", "replace-star-imports"), "--replace", tool],
+                                   env=cenv, cwd=base, stdout=subprocess.PIPE, stderr=subprocess.PIPE, text=True, timeout=120)
+                obs["rewrite_rc"] = p.returncode
+                obs["new"] = open(tool, encoding="utf-8").read() if p.returncode == 0 else None
+                obs["rewrite_err"] = p.stderr[-300:] if p.returncode else None
+            else:
+                cfg = dict(path=path, repo_lib=repo_lib, preimport=e["preimport"], modname=case["modname"],
+                           proj=proj, tool=tool)
+                p = subprocess.run([sys.executable, "-I", "-c", self.ENV_DRIVER, json.dumps(cfg)], env=env, cwd=base,
+                                   stdout=subprocess.PIPE, stderr=subprocess.PIPE, text=True, timeout=120)
+                obs["rewrite_rc"] = p.returncode
+                obs["new"] = p.stdout if p.returncode == 0 else None
+                obs["rewrite_err"] = p.stderr[-300:] if p.returncode else None
+            if obs["new"] is not None:
+                tool2 = os.path.join(proj, "tool_new.py")
+                with open(tool2, "w", encoding="utf-8") as f:
+                    f.write(obs["new"])
+                obs["newrun"] = script(tool2, runenv)
+        finally:
+            shutil.rmtree(base, ignore_errors=True)
+        return obs
+
+    def _oracle_env(self, case, obs):
+        ctx = dict(env=case["env"], program=case["program"], new=obs.get("new"), proj=case["projfiles"], lib=case["libfiles"])
+        if obs.get("new") is None:
+            return [dict(what="env: rewrite failed", err=obs.get("rewrite_err"), **ctx)]
+        if obs["orig"][0] != 0 or obs.get("star") is None:
+            return []      # the program as written does not run: nothing to preserve
+        fails = []
+        mod = case["modname"]
+        try:
+            imps = top_imports(obs["new"])
+        except SyntaxError:
+            return [dict(what="env: rewritten file does not parse", **ctx)]
+        listed = sorted(n for (m, n, a) in imps if m == mod and n != "*")
+        wrong = [n for n in listed if n not in obs["star"]]
+        if wrong:
+            fails.append(dict(what="env: explicit list names what the sibling module's star import does not bind",
+                              names=wrong, star=obs["star"], **ctx))
+        rc, out, err = obs["newrun"]
+        if rc != 0 or out != obs["orig"][1]:
+            fails.append(dict(what="env: rewritten file behaves differently when run as a script", orig=obs["orig"],
+                              newrun=obs["newrun"], **ctx))
+        return fails
+
+    def _env_requests(self, case, obs):
+        """K: the explicit list must be the model's exports of the SIBLING's source"""
+        rel = case["modname"] + ".py"
+        is_init = False
+        if rel not in case["projfiles"]:
+            rel, is_init = case["modname"] + "/__init__.py", True
+        try:
+            items = abstract_items(case["projfiles"][rel])
+        except SyntaxError:
+            return []
+        mods = [case["modname"]] + [r[:-3].replace("/", ".") for r in case["projfiles"]
+                                    if r.endswith(".py") and not r.endswith("__init__.py") and r != rel]
+        return [dict(op="exports", variant=model_variant(), self=[case["modname"]], isInit=is_init,
+                     exists=[m.split(".") for m in mods], items=items)]
+
+    def _env_compare(self, case, obs, resps):
+        if obs.get("new") is None or "ok" not in resps[0]:
+            return None
+        want = sorted(set(resps[0]["ok"]))
+        try:
+            imps = top_imports(obs["new"])
+        except SyntaxError:
+            return None
+        got = sorted({n for (m, n, a) in imps if m == case["modname"] and n != "*"})
+        kept = (case["modname"], "*", None) in imps
+        if (want and (kept or got != want)) or (not want and not kept):
+            return "env %r: names imported from %s impl=%r kept=%r model(sibling)=%r" % (
+                case["env"], case["modname"], got, kept, want)
+        return None
+
     def _run_cli(self, root, case):
         env = dict(os.environ)
         env["PYTHONPATH"] = root + os.pathsep + os.path.join(REPO, "lib", "python")
@@ -696,6 +854,8 @@ class C19(Prop):
         return True, "ok", an
 
     def oracle(self, case, obs):
+        if case.get("kind") == "env":
+            return self._oracle_env(case, obs)
         fails = []
         cpy = obs["cpy"]
         prog_imports_orig = top_imports(case["program"])
@@ -875,6 +1035,8 @@ class C19(Prop):
 
     # -- model (K) -------------------------------------------------------------------------
     def model_requests(self, case, obs):
+        if case.get("kind") == "env":
+            return self._env_requests(case, obs)
         reqs = []
         variant = model_variant()
         mods = sorted(universe_modules(case))
@@ -916,6 +1078,8 @@ class C19(Prop):
         return reqs
 
     def compare(self, case, obs, resps):
+        if case.get("kind") == "env":
+            return self._env_compare(case, obs, resps)
         reqs = self.model_requests(case, obs)
         for rq, r in zip(reqs, resps):
             if rq["op"] == "exports":
@@ -940,12 +1104,17 @@ class C19(Prop):
 
     # -- bookkeeping -------------------------------------------------------------------------
     def nontrivial_key(self, case, obs):
+        if case.get("kind") == "env":
+            return json.dumps(case, sort_keys=True) if obs.get("new") not in (None, case["program"]) else None
         ex = obs["exports"]
         if any(isinstance(v, list) and v for v in ex.values()) or any(isinstance(v, dict) for v in ex.values()):
             return json.dumps([case["files"], case["program"]], sort_keys=True, default=str)
         return None
 
     def sample_repr(self, case, obs):
+        if case.get("kind") == "env":
+            return dict(env=case["env"], proj=case["projfiles"], lib=case["libfiles"], program=case["program"],
+                        new=obs.get("new"))
         t = case["targets"][0]
         rel, _ = target_file(case, t)
         return dict(target=t, source=(case["files"].get(rel) if rel else None), program=case["program"],
@@ -955,6 +1124,10 @@ class C19(Prop):
         def inc(k):
             acc[k] = acc.get(k, 0) + 1
         inc("kind_" + case.get("kind", "?"))
+        if case.get("kind") == "env":
+            e = case["env"]
+            inc("env_%s_%s_%s" % (e["via"], e["path_mode"], "preimported" if e["preimport"] else "fresh"))
+            return
         for t, v in obs["exports"].items():
             inc("exports_err" if isinstance(v, dict) else "exports_none" if v is None else "exports_nonempty")
         pr = obs["cpy"].get("program", {})
@@ -990,7 +1163,7 @@ def fam_d8_forms(case, f):
             # the rewritten program fails inside the import itself: stale entries of an overridden __all__
             return True
         for t, d in f.get("why", {}).get("targets", {}).items():
-            if d.get("exported") or d.get("exports_state") == "err" or (f.get("name") or "_").startswith("_"):
+            if d.get("exported") or d.get("exports_state") != "list" or (f.get("name") or "_").startswith("_"):
                 continue
             if d.get("all") == "lit":
                 if d.get("all_by_ann"):
@@ -1012,7 +1185,8 @@ def fam_not_exported_by_design(case, f):
     if not name:
         return False
     for t, d in f.get("why", {}).get("targets", {}).items():
-        if d.get("exported") or d.get("exports_state") == "err" or d.get("kinds") is None:
+        if d.get("exported") or d.get("exports_state") != "list" or d.get("kinds") is None:
+            # (nothing exported / not inspectable => the star import must have been kept: not this family)
             continue
         if name.startswith("_"):
             return True
@@ -1030,7 +1204,8 @@ def fam_own_star(case, f):
         return _req(f.get("kinds")) == {"own_star"}
     if w in PROGRAM_FAILS:
         for t, d in f.get("why", {}).get("targets", {}).items():
-            if not d.get("exported") and d.get("all") != "lit" and _req(d.get("kinds")) == {"own_star"}:
+            if (not d.get("exported") and d.get("exports_state") == "list" and d.get("all") != "lit"
+                    and _req(d.get("kinds")) == {"own_star"}):
                 return True
     return False
 
@@ -1045,7 +1220,7 @@ def fam_alias_probe(case, f):
         return bool(f.get("alias_clash")) and _req(f.get("kinds")) == {"import_own"}
     if w in PROGRAM_FAILS:
         for t, d in f.get("why", {}).get("targets", {}).items():
-            if (not d.get("exported") and d.get("all") != "lit" and d.get("alias_clash")
+            if (not d.get("exported") and d.get("exports_state") == "list" and d.get("all") != "lit" and d.get("alias_clash")
                     and _req(d.get("kinds")) == {"import_own"}):
                 return True
     return False
